@@ -1108,6 +1108,11 @@ def _diag(e, st, node, M):
     raise Unsupported('np.diag form')
 
 
+@prim('time.perf_counter', 'time.time', 'time.process_time')
+def _clock(e, st, node):
+    return e.fresh('clock', 'real')        # wall-clock readings: unconstrained reals (only ever stored in runtime_ attributes)
+
+
 @prim('warnings.simplefilter')
 def _simplefilter(e, st, node, *a, **k):
     return NONE
